@@ -52,3 +52,52 @@ func VerifH08aFailedLoadsThenValid() {
 	verifrt.Assert(len(zzOpenLn) == 0, "stop-closes-listeners")
 	verifrt.Observe("loads", got)
 }
+
+// VerifH08dOverlappingLoads: a load that is still inside a directive's setup when another load
+// completes, and then fails, removes only itself: the instance started meanwhile keeps running,
+// stays the current one and is what Stop reaches.
+func VerifH08dOverlappingLoads() {
+	verifrt.Terminates()
+	verifrt.Concurrent(-1)
+	zzLifeRegister()
+	zzLifeMu.Lock()
+	zzLifeLog = nil
+	zzOpenLn = map[*zzLifeLn]bool{}
+	zzLifeMu.Unlock()
+	instances = nil
+	shutdownCallbacksOnce = sync.Once{}
+	Quiet = true
+	zzTwoKeys = false
+	zzGate, zzAtGate = make(chan struct{}), make(chan struct{})
+
+	var before *Instance
+	if verifrt.Bool("an-instance-already-runs") {
+		var err error
+		before, err = Start(zzInput("B", ""))
+		verifrt.Assert(err == nil, "valid-configuration-loads")
+	}
+	done := make(chan error, 1)
+	go func() {
+		_, err := Start(zzInput("X", "gate"))
+		done <- err
+	}()
+	<-zzAtGate // the failing load is inside its directive's setup
+	inst, err := Start(zzInput("G", ""))
+	verifrt.Assert(err == nil, "valid-configuration-loads-while-another-load-is-busy")
+	close(zzGate)
+	errX := <-done
+	verifrt.Assert(errX != nil, "invalid-configuration-is-rejected")
+	if err != nil {
+		return
+	}
+	list := Instances()
+	want := 1
+	if before != nil {
+		want = 2
+	}
+	verifrt.Assert(len(list) == want && list[len(list)-1] == inst && (before == nil || list[0] == before), "failed-load-removes-only-itself")
+	Stop()
+	inst.Wait()
+	verifrt.Assert(len(zzOpenLn) == 0, "stop-reaches-every-running-instance")
+	verifrt.Observe("instances", len(list))
+}
